@@ -72,7 +72,7 @@ Proof.
   intros H. unfold excludeT, exT, sel. rewrite !excludeType_eq.
   rewrite (filter_cols_ok _ (t_cols t) H).
   destruct (admits typeC v) eqn:EC, (admits typeI v) eqn:EI, (admits typeF v) eqn:EF,
-           (admits typeK v) eqn:EK, (admits [116;114;105;103;103;101;114]%N v) eqn:EG;
+           (admits typeK v) eqn:EK;
     cbn -[filterM filter existsb idx_on fk_on];
     rewrite ?(idx_filter_ok link _ _ _ H), ?(fk_filter_ok link _ _ _ H), ?(check_filter_ok _ _ H);
     cbn -[filterM filter existsb idx_on fk_on].
